@@ -15,6 +15,7 @@ Sev    == 0..5
 \* families of the analysed pickle A: its verdict, or "crash" when parsing/analysis raises
 Family == {"data", "bigdata", "unused", "dupproto", "sink", "getpid", "eval", "float0", "truncated", "underflow", "nomemo", "persid", "pkgsub",
            "loadfails",
+           "badfirst",      \* the first opcode is one the parser refuses (an unknown opcode byte, a malformed argument); a well-formed flagged pickle follows in the stream
            "py2str"}        \* LIKELY_SAFE data whose value depends on the unpickling options the caller passes (8-bit strings)     \* analysed and rated like "sink", but the real unpickler raises (a global that cannot be resolved)
 VerdictOf(f) == CASE f \in {"data", "bigdata", "py2str"} -> 0 [] f = "unused" -> 2 [] f = "dupproto" -> 3 [] f \in {"sink", "pkgsub", "loadfails"} -> 3 [] f = "getpid" -> 4 [] f = "eval" -> 5 [] OTHER -> 9
 Crashes(f) == VerdictOf(f) = 9
@@ -32,7 +33,7 @@ Acc == IF arm \in {"loader", "loader_json", "context_t"} THEN t ELSE 0       \* 
 Mutate  == phase \in {"parsed", "analysed", "loading"} /\ kind # "bytes" /\ content = "A" /\ content' = "B"
            /\ UNCHANGED <<arm, kind, t, fam, phase, seen, executed>>
 Parse   == phase = "idle" /\ seen' = content
-           /\ phase' = (IF fam \in {"float0", "truncated"} THEN "crashed" ELSE "parsed")
+           /\ phase' = (IF fam \in {"float0", "truncated", "badfirst"} THEN "crashed" ELSE "parsed")
            /\ UNCHANGED <<arm, kind, t, fam, content, executed>>
 Analyse == phase = "parsed"
            /\ phase' = (IF Crashes(fam) THEN "crashed" ELSE IF VerdictOf(fam) <= Acc THEN "analysed" ELSE "raised")
